@@ -39,6 +39,7 @@ def transportsOp : List String → String
               | "ok" => sendmailResult true []
               | "fail" => sendmailResult false (str "boom: rejected\n")
               | "killed" => sendmailResult false (str "killed: out of memory\n")
+              | "faillong" => sendmailResult false ([120] ++ (List.replicate 1500 [195, 169]).flatten)
               | _ => sendmailResult false [255, 254]
             let expS := match exp with
               | .ok => "ok"
@@ -49,7 +50,15 @@ def transportsOp : List String → String
             else if exp == .responseError then (if rc.startsWith "err:response:" then none else some s!"MISMATCH sendmail model={expS}")
             else if rc != expS then some s!"MISMATCH sendmail model={expS}" else none
         | _ => some "sendmail-bad-report"
-      let smChk' (s : String) : Option String := if kind == "failbin" then
+      -- a program that never reads its input and succeeds: whether the write fails depends on the size of the message; the
+      -- blocking and the tokio transport must say the same
+      let ignoreChk : Option String := if kind != "ignore" then none else
+        match smS.splitOn "|", smA.splitOn "|" with
+        | [rs, _, _], [ra, _, _] =>
+          if rs.startsWith "ok" == ra.startsWith "ok" then none
+          else some s!"blocking-and-tokio-sendmail-disagree-on-a-program-that-ignores-its-input:{rs.take 12}:{ra.take 12}"
+        | _, _ => some "sendmail-bad-report"
+      let smChk' (s : String) : Option String := if kind == "ignore" then ignoreChk else if kind == "failbin" then
           (match s.splitOn "|" with
            | [rc, _, _] => if rc.startsWith "err:" then none else some "sendmail-failure-reported-as-success"
            | _ => some "sendmail-bad-report") else smChk s
